@@ -30,9 +30,10 @@ import (
 func init() { commands["isosim"] = isosim }
 
 const (
-	isoNT = 3
-	isoNK = 4
-	isoNS = 3
+	isoNTy = 8 // 1 kv, 2 hash, 3 list, 4 set, 5 zset, 6 bitmap, 7 json, 8 hyperloglog
+	isoNT  = 3
+	isoNK  = 4
+	isoNS  = 3
 )
 
 type isoDrv struct {
@@ -45,8 +46,8 @@ type isoDrv struct {
 	spos map[string]int
 	kpos map[string]int
 	// driver-side bookkeeping, only to generate sensible commands (never logged as truth)
-	size     [5 * isoNT * isoNK]int
-	doomed   [5 * isoNT * isoNK]bool
+	size     [isoNTy * isoNT * isoNK]int
+	doomed   [isoNTy * isoNT * isoNK]bool
 	local    bool
 	hung     bool
 	watchdog time.Duration
@@ -55,11 +56,25 @@ type isoDrv struct {
 	bulkEvery, nBulk   int
 	probeEvery, nProbe int
 	compact            bool
+	delExt             bool
+	nty                int // data types in the command mix (5, or 8 with bitmap / json / hll)
 	ncmd               int
 	nErr               int
 	byOp               map[string]int
 	touched            map[int]bool
 }
+
+// bit offsets of the bitmap tuples: two in the first 8 192-bit segment, the first bit of the
+// second and one far away
+var isoBitOffsets = []int64{0, 9, 8192, 1000000}
+
+// HyperLogLog data lives in the kv keyspace: HLL tuples use the key name + this suffix so that
+// they never share a stored key with a kv tuple
+const isoHLLSuffix = "~h"
+
+// SETBIT works on strings in Redis and BITSETV2 converts an existing kv value of the same key,
+// so bitmap tuples get names of their own as well
+const isoBitSuffix = "~b"
 
 func isoTup(ty, t, k int) int { return ((ty-1)*isoNT+(t-1))*isoNK + k }
 
@@ -85,11 +100,17 @@ func (d *isoDrv) subPos(b []byte) int {
 // dump reads every tuple back through the store's enumerating read commands
 func (d *isoDrv) dump() [][][2]int {
 	db := d.wd.store
-	out := make([][][2]int, 0, 5*isoNT*isoNK)
-	for ty := 1; ty <= 5; ty++ {
+	out := make([][][2]int, 0, isoNTy*isoNT*isoNK)
+	for ty := 1; ty <= isoNTy; ty++ {
 		for t := 1; t <= isoNT; t++ {
 			for k := 1; k <= isoNK; k++ {
 				key := []byte(d.rkey(t, k))
+				if ty == 8 {
+					key = []byte(d.rkey(t, k) + isoHLLSuffix)
+				}
+				if ty == 6 {
+					key = []byte(d.rkey(t, k) + isoBitSuffix)
+				}
 				v := [][2]int{}
 				func() {
 					defer func() {
@@ -129,6 +150,36 @@ func (d *isoDrv) dump() [][][2]int {
 						}
 						for _, m := range ms {
 							v = append(v, [2]int{d.subPos(m), 0})
+						}
+					case 6:
+						for i, off := range isoBitOffsets {
+							b, err := db.BitGetV2(key, off)
+							if err != nil {
+								v = append(v, [2]int{-8, -8})
+							} else if b != 0 {
+								v = append(v, [2]int{i + 1, 0})
+							}
+						}
+					case 7:
+						ex, err := db.JKeyExists(key)
+						if err != nil {
+							v = append(v, [2]int{-8, -8})
+						} else if ex != 0 {
+							vals, err := db.JGet(key, []byte(""))
+							n := -7
+							if err == nil && len(vals) == 1 {
+								if x, e := strconv.Atoi(vals[0]); e == nil {
+									n = x
+								}
+							}
+							v = append(v, [2]int{n, 0})
+						}
+					case 8:
+						n, err := db.PFCount(time.Now().UnixNano(), key)
+						if err != nil {
+							v = append(v, [2]int{-8, -8})
+						} else if n != 0 {
+							v = append(v, [2]int{int(n), 0})
 						}
 					case 5:
 						sps, err := db.ZRange(key, 0, -1)
@@ -190,6 +241,9 @@ func (d *isoDrv) one(op string, ty, t, k, a, b int) {
 		r = d.wd.apply("set", key, "v"+it(a))
 		d.size[u-1] = 1
 	case "del":
+		if ty == 8 {
+			key += isoHLLSuffix
+		}
 		r = d.wd.apply("del", key)
 		d.size[u-1] = 0
 	case "hset":
@@ -217,8 +271,26 @@ func (d *isoDrv) one(op string, ty, t, k, a, b int) {
 		r = d.wd.apply("zrem", key, d.subs[a-1])
 	case "zrembyscore":
 		r = d.wd.apply("zremrangebyscore", key, it(a), it(b))
+	case "bitset":
+		r = d.wd.apply("setbitv2", key+isoBitSuffix, strconv.FormatInt(isoBitOffsets[a-1], 10), "1")
+		d.size[u-1] = 1
+	case "jset":
+		r = d.wd.apply("json.set", key, ".", it(a))
+		if _, bad := r.(error); !bad {
+			r = "OK" // the apply-side handler's success value; the client sees OK
+		}
+		d.size[u-1] = 1
+	case "jdel":
+		r = d.wd.apply("json.del", key)
+		d.size[u-1] = 0
+	case "pfadd":
+		r = d.wd.apply("pfadd", key+isoHLLSuffix, "e"+it(a))
+		d.size[u-1] = 1
 	case "clear":
-		r = d.wd.apply([]string{"", "", "hclear", "lclear", "sclear", "zclear"}[ty], key)
+		if ty == 6 {
+			key += isoBitSuffix
+		}
+		r = d.wd.apply([]string{"", "", "hclear", "lclear", "sclear", "zclear", "bitclear"}[ty], key)
 		d.size[u-1] = 0
 	case "expire":
 		r = d.wd.apply([]string{"", "expire", "hexpire", "lexpire", "sexpire", "zexpire"}[ty], key, "1")
@@ -237,6 +309,17 @@ func (d *isoDrv) one(op string, ty, t, k, a, b int) {
 }
 
 func (d *isoDrv) delTable(t int) {
+	if !d.delExt {
+		// open finding C12-deltable-skips-bitmap-json-hll: the whole-table delete leaves bitmap,
+		// JSON and (cached) HyperLogLog data behind - kept out of the general corpus
+		for ty := 6; ty <= isoNTy; ty++ {
+			for k := 1; k <= isoNK; k++ {
+				if d.size[isoTup(ty, t, k)-1] > 0 {
+					return
+				}
+			}
+		}
+	}
 	if err := (node.DeleteTableRange{Table: d.tabs[t-1], DeleteAll: true}).CheckValid(); err != nil {
 		// rejected before it would be proposed (KVNode.DeleteRange; a table name that is not
 		// valid UTF-8 cannot be carried by the JSON proposal - fixed finding
@@ -248,7 +331,7 @@ func (d *isoDrv) delTable(t int) {
 	if r != nil {
 		d.nErr++
 	}
-	for ty := 1; ty <= 5; ty++ {
+	for ty := 1; ty <= isoNTy; ty++ {
 		for k := 1; k <= isoNK; k++ {
 			d.size[isoTup(ty, t, k)-1] = 0
 		}
@@ -304,6 +387,9 @@ func (d *isoDrv) keysOf(ty, t int) {
 		pre := d.tabs[t-1] + ":"
 		for _, k := range sr.Keys {
 			s := string(k)
+			if ty == 1 && (strings.HasSuffix(s, isoHLLSuffix) || strings.HasSuffix(s, isoBitSuffix)) {
+				continue // HLL tuples live in the kv keyspace under names of their own
+			}
 			p := -1
 			if strings.HasPrefix(s, pre) {
 				if q, ok := d.kpos[s[len(pre):]]; ok {
@@ -479,7 +565,7 @@ func (d *isoDrv) step() {
 		d.keysOf(1+d.rng.Intn(5), 1+d.rng.Intn(isoNT))
 		return
 	}
-	ty, t, k := 1+d.rng.Intn(5), 1+d.rng.Intn(isoNT), 1+d.rng.Intn(isoNK)
+	ty, t, k := 1+d.rng.Intn(d.nty), 1+d.rng.Intn(isoNT), 1+d.rng.Intn(isoNK)
 	if len(d.hot) > 0 && d.rng.Intn(10) < 6 {
 		// most commands go to a few hot tuples, so that one tuple sees write / clear /
 		// re-create sequences while all the others are watched
@@ -492,7 +578,7 @@ func (d *isoDrv) step() {
 	}
 	s, v := 1+d.rng.Intn(isoNS), 1+d.rng.Intn(3)
 	x := d.rng.Intn(100)
-	if d.local && x < 6 {
+	if d.local && x < 6 && ty <= 5 {
 		d.one("expire", ty, t, k, 0, 0)
 		return
 	}
@@ -529,6 +615,24 @@ func (d *isoDrv) step() {
 			d.one("srem", ty, t, k, s, 0)
 		default:
 			d.one("clear", ty, t, k, 0, 0)
+		}
+	case 6:
+		if x < 75 {
+			d.one("bitset", ty, t, k, 1+d.rng.Intn(len(isoBitOffsets)), 0)
+		} else {
+			d.one("clear", ty, t, k, 0, 0)
+		}
+	case 7:
+		if x < 70 {
+			d.one("jset", ty, t, k, v, 0)
+		} else {
+			d.one("jdel", ty, t, k, 0, 0)
+		}
+	case 8:
+		if x < 75 {
+			d.one("pfadd", ty, t, k, s, 0)
+		} else {
+			d.one("del", ty, t, k, 0, 0)
 		}
 	case 5:
 		switch {
@@ -575,6 +679,8 @@ func isosim(args []string) error {
 	tabsel := fs.Int("tables", -1, "force the table triple (-1: by seed)")
 	bulkEvery := fs.Int("bulk", 0, "one step in N is a > 5 000-element clear episode (0 = none)")
 	probeEvery := fs.Int("probe", 25, "one step in N is a limit probe (0 = none)")
+	ntypes := fs.Int("types", 8, "data types in the command mix: 5, or 6..8 to add bitmap, json, hyperloglog")
+	delExt := fs.Bool("deltable-ext", false, "whole-table delete also while the table holds bitmap / json / hll data (open finding)")
 	burst := fs.Bool("burst", false, "local policy: start every world with keys of three types expiring in one pass")
 	expire := fs.Bool("expire", true, "local policy: include expire commands and the expiry pass")
 	fs.Parse(args)
@@ -602,7 +708,7 @@ func isosim(args []string) error {
 			usable = append(usable, i)
 		}
 	}
-	d := &isoDrv{wd: wd, rng: rng, local: pol == common.LocalDeletion && *expire, byOp: map[string]int{}, touched: map[int]bool{}, bulkEvery: *bulkEvery, probeEvery: *probeEvery, compact: pol == common.WaitCompact, watchdog: 120 * time.Second}
+	d := &isoDrv{wd: wd, rng: rng, local: pol == common.LocalDeletion && *expire, byOp: map[string]int{}, touched: map[int]bool{}, bulkEvery: *bulkEvery, nty: *ntypes, delExt: *delExt, probeEvery: *probeEvery, compact: pol == common.WaitCompact, watchdog: 120 * time.Second}
 	if *et == "mem" {
 		d.watchdog = 20 * time.Second // the engine the recorded deadlock is about
 	}
@@ -653,10 +759,10 @@ func isosim(args []string) error {
 		d.tw.Emit(trace.M{"ev": "reset", "tabs": hx(d.tabs[:]), "keys": hx(d.keys[:]), "subs": hx(d.subs[:])})
 		d.hot = nil
 		for i := 0; i < 6; i++ {
-			d.hot = append(d.hot, [3]int{1 + rng.Intn(5), 1 + rng.Intn(isoNT), 1 + rng.Intn(isoNK)})
+			d.hot = append(d.hot, [3]int{1 + rng.Intn(d.nty), 1 + rng.Intn(isoNT), 1 + rng.Intn(isoNK)})
 		}
-		d.size = [5 * isoNT * isoNK]int{}
-		d.doomed = [5 * isoNT * isoNK]bool{}
+		d.size = [isoNTy * isoNT * isoNK]int{}
+		d.doomed = [isoNTy * isoNT * isoNK]bool{}
 		if *burst && d.local {
 			// keys of two data types expire in the same pass
 			d.one("set", 1, 1, 1, 1, 0)
@@ -699,7 +805,7 @@ func isosim(args []string) error {
 		}
 	}
 	summary(trace.M{"driver": "isosim", "eng": *et, "policy": *policy, "segments": *nseg, "commands": d.ncmd,
-		"by_op": d.byOp, "tuples_dumped_per_command": 5 * isoNT * isoNK, "dumps": d.ncmd, "errors": d.nErr,
+		"by_op": d.byOp, "tuples_dumped_per_command": isoNTy * isoNT * isoNK, "dumps": d.ncmd, "errors": d.nErr,
 		"panics": wd.panics, "bulk_clears": d.nBulk, "limit_probes": d.nProbe, "pools": pu, "table_sets": tu, "applied": wd.napply})
 	return nil
 }
